@@ -300,7 +300,7 @@ fn test(case: &Case, st: &mut Stats, counting: bool) -> CaseResult {
                     let (secs, nanos) = times[idx(*t, times.len())];
                     let when = time_of(secs, nanos);
                     let append = f % 4 < 2;
-                    let mut h = if append { p.append_file() } else { p.create_file() }.map_err(|e| (step, e.to_string()))?;
+                    let mut h = crate::util::hold(if append { p.append_file() } else { p.create_file() }.map_err(|e| (step, e.to_string()))?);
                     h.write_all(&make_bytes(d)).map_err(|e| (step, e.to_string()))?;
                     let r = match field {
                         TimeField::Created => p.set_creation_time(when),
@@ -331,7 +331,7 @@ fn test(case: &Case, st: &mut Stats, counting: bool) -> CaseResult {
                     let before = m_of(&p.metadata().map_err(|e| (step, e.to_string()))?);
                     let is_append = matches!(op, TOp::Append(..));
                     {
-                        let mut h = if is_append { p.append_file() } else { p.create_file() }.map_err(|e| (step, e.to_string()))?;
+                        let mut h = crate::util::hold(if is_append { p.append_file() } else { p.create_file() }.map_err(|e| (step, e.to_string()))?);
                         h.write_all(&make_bytes(d)).map_err(|e| (step, e.to_string()))?;
                     }
                     let after = m_of(&p.metadata().map_err(|e| (step, e.to_string()))?);
